@@ -456,6 +456,8 @@ def add_generator_contracts(pack):
     NS_PYSYM = z3.Function("ns_as_python_sym", V.Val, V.Val)
     LOAD_ATTR = z3.Function("load_attr_node", V.Val, V.Val, V.Val)
     CUR_NS = z3.Const("current.ns", V.Val)
+    # "a function parameter of this or an enclosing frame is compiled to this Python name" (SymbolTable.is_py_param)
+    PARAM_BOUND = z3.Function("python_param_in_scope", V.Val, V.Val, z3.BoolSort())
 
     def fld(st, obj, name):
         return z3.Select(st.field_array(name), V.Val.a(obj))
@@ -472,6 +474,10 @@ def add_generator_contracts(pack):
         lid, pmid = eng.class_id(list), eng.class_id(PersistentMap)
         eng.field_types[("GeneratorContext", "_var_indirection_override")] = lambda v: (z3.And(V.is_ref(v), V.cls_of(V.Val.a(v)) == lid), list)
         eng.field_types[("GeneratorContext", "_opts")] = lambda v: (z3.And(V.is_ref(v), V.cls_of(V.Val.a(v)) == pmid), PersistentMap)
+        eng.field_types[("GeneratorContext", "_st")] = lambda v: (z3.And(V.is_ref(v), V.cls_of(V.Val.a(v)) == lid), list)
+        eng.class_id(gen.SymbolTable)
+        eng.method_models[(gen.SymbolTable, "is_py_param")] = Model(
+            "SymbolTable.is_py_param (a parameter in scope has this Python name)", lambda e, s, a, k: iter([(s, SV(V.mk_bool(PARAM_BOUND(e.lift(a[0], s), e.lift(a[1], s)))))]))
         eng.field_types[("VarRef", "var")] = lambda v: (z3.And(V.is_ref(v), V.cls_of(V.Val.a(v)) == eng.class_id(rt.Var)), rt.Var)
         eng.field_types[("VarRef", "return_var")] = lambda v: V.is_bool(v)
         eng.field_types[("VarRef", "is_allow_var_indirection")] = lambda v: V.is_bool(v)
@@ -554,6 +560,8 @@ def add_generator_contracts(pack):
     from pyvc import ops as _ops
 
     c.requires("the node is a Var reference (node.op == NodeOp.VAR)", lambda a: _ops.eq_term(None, fld(a.pre.st, a.node, "op"), a.eng.lift(nodes.NodeOp.VAR, a.pre.st)))
+    c.requires("the generator has a current symbol table",
+               lambda a: (lambda L: z3.And(z3.Length(L) > 0, exact(a.eng, L[z3.Length(L) - 1], gen.SymbolTable)))(lst(a.pre.st, fld(a.pre.st, a.ctx, "_st"))))
     c.requires("the override stack holds booleans", lambda a: (lambda L: z3.Implies(z3.Length(L) > 0, V.is_bool(L[z3.Length(L) - 1])))(lst(a.pre.st, fld(a.pre.st, a.ctx, "_var_indirection_override"))))
     c.raises()
 
@@ -574,6 +582,10 @@ def add_generator_contracts(pack):
         use = z3.And(z3.Select(V.dom_of(V.Val.a(inner)), key), a.eng.truthy_term(SV(z3.Select(V.map_of(V.Val.a(inner)), key)), st))
         return z3.Or(override, use, IS_DYN(var), IS_REDEF(var))
 
+    def symtab(a):
+        L = lst(a.pre.st, fld(a.pre.st, a.ctx, "_st"))
+        return L[z3.Length(L) - 1]
+
     def ctx_cls(a, n):
         return z3.If(V.Val.b(a.is_assigning), exact(a.eng, fld(a.post.st, n, "ctx"), ast.Store), exact(a.eng, fld(a.post.st, n, "ctx"), ast.Load))
 
@@ -591,7 +603,8 @@ def add_generator_contracts(pack):
         module = fld(a.pre.st, ns, "_module")
         link = NIM(vname, module)
         same_ns = ns == CUR_NS
-        direct_here = z3.And(exact(a.eng, n, ast.Name), fld(post, n, "id") == link, ctx_cls(a, n))
+        # a function parameter compiled to the same Python name would capture the global: then the Var must be used
+        direct_here = z3.And(exact(a.eng, n, ast.Name), fld(post, n, "id") == link, ctx_cls(a, n), z3.Not(PARAM_BOUND(symtab(a), link)))
         alias = NIM(V.mk_str(V.Val.s(NS_PYSYM(nsname))), fld(a.pre.st, CUR_NS, "_module"))
         direct_other = z3.And(z3.Not(V.is_none(alias)), exact(a.eng, n, ast.Attribute))
         direct = z3.And(z3.Not(V.is_none(link)), z3.If(same_ns, direct_here, direct_other))
